@@ -598,18 +598,21 @@ impl Scn {
                 let r = self.node().process(&mk_block(&cb, &dao));
                 self.variant_result(ctx, other_idx, &r, if with_output { "cellbase-output-missing" } else { "cellbase-output-without-target" }, number);
             }
-            if with_output {
+            if with_output && !self.dead {
                 let mut caps = vec![m_total + 1, m_total - 1];
                 if ctx.rng.chance(1, 6) {
                     caps.push(m_total + 1 + ctx.rng.below(1_000_000));
                     caps.push(m_total - 1 - ctx.rng.below(1_000_000.min(m_total - lock_occ)));
                 }
                 for cap in caps {
+                    if self.dead {
+                        break;
+                    }
                     let i = self.say(ctx, &format!("verify {} {} {} {}:1", p_number, m_total, lock_occ, cap), None);
                     let r = self.node().process(&mk_block(&mk_cellbase(Some((cap, target_lock.clone()))), &m_dao));
                     self.variant_result(ctx, i, &r, if cap > m_total { "cellbase-capacity-above" } else { "cellbase-capacity-below" }, number);
                 }
-                if ctx.rng.chance(1, 3) {
+                if !self.dead && ctx.rng.chance(1, 3) {
                     // the right amount to another lock of the same size (so that U is unchanged)
                     let mut ch = target_lock.code_hash().raw_data().to_vec();
                     ch[ctx.rng.below(32) as usize] ^= 1 << ctx.rng.below(8);
@@ -634,6 +637,9 @@ impl Scn {
             bits.sort();
             bits.dedup();
             for bit in bits {
+                if self.dead {
+                    break;
+                }
                 let mut raw = m_dao_bytes.clone();
                 raw[bit / 8] ^= 1 << (bit % 8);
                 let i = self.say(ctx, &format!("daoverify {}", hex(&raw)), None);
